@@ -4,7 +4,7 @@ package main
 //
 // Subset: int and bool parameters and results, receivers of the contiguous location kinds,
 // `:=`, `=`, parallel assignment, `+=`, `-=`, field assignment on struct-valued locals,
-// `if` / `if-else` (either every path of the body returns, or none does), tagless `switch`
+// `if` / `if-else` / `else if` (either every path of the body returns, or none does), tagless `switch`
 // whose clauses all return, `return`; expressions over + - * / % comparisons && || ! unary -,
 // calls to other translated functions and to the location constructors.  The output is a
 // *pure* Lean term: assignments become shadowing `let`s, an `if` whose body returns turns the
@@ -785,6 +785,12 @@ func genArith(repo string) (text string, err error) {
 		ast.Inspect(decl, func(n ast.Node) bool {
 			if id, ok := n.(*ast.Ident); ok && leanKeywords[id.Name] {
 				id.Name += "_"
+			}
+			// `else if c {…}` is `else { if c {…} }`
+			if is, ok := n.(*ast.IfStmt); ok {
+				if ei, ok := is.Else.(*ast.IfStmt); ok {
+					is.Else = &ast.BlockStmt{List: []ast.Stmt{ei}}
+				}
 			}
 			return true
 		})
